@@ -6,12 +6,13 @@ PROP = 'C08'
 LEAN_MODULES = ['XyzProofs.Props.C08']
 THEOREMS = ['Crop.c08_grow_inv', 'Crop.c08_failed_grow_unchanged', 'Crop.c08_fn_raises', 'Crop.c08_delete_inv',
             'Crop.c08_counts', 'Crop.c08_ready_iff', 'Crop.c08_missing_spec', 'Crop.c08_grow_missing',
-            'Crop.c08_resow_keeps_results', 'Crop.length_eq_iff_all', 'Crop.c08_check_bad', 'Crop.c08_check_bad_clean']
+            'Crop.c08_resow_keeps_results', 'Crop.length_eq_iff_all', 'Crop.c08_check_bad', 'Crop.c08_check_bad_clean',
+            'Crop.c08_unsown_not_ready', 'Crop.c08_handle_irrelevant']
 ANCHORS = ['isReady', 'sowerGetsExtra', 'sowerFlush', 'nbFromBs', 'capNb', 'bsOfNb', 'remOfNb', 'bothOk']
 RULE = ("random histories (length <= 12) of {sow, re-sow with the same shape, grow one id, grow a subset, grow_missing, grow "
         "with a function that raises on chosen settings, delete a result file, corrupt a result + check_bad, a stranded temporary "
-        "of a killed grower, reload the Crop, "
-        "query} on crops of 1..8 batches; after EVERY operation the four progress queries, str(crop) and the directory "
+        "of a killed grower, reload the Crop, query, query before the first sow, query through a handle made before "
+        "the sow, complete reap then query} on crops of 1..8 batches; after EVERY operation the four progress queries, str(crop) and the directory "
         "listing are compared with the Lean model and with a ghost set of finished batches maintained by the oracle; "
         "non-trivial = at least 2 batches and at least 3 state-changing operations; distinct by full history; thorough adds "
         "all histories of length <= 4 over a fixed op alphabet on 2 batches")
@@ -19,7 +20,7 @@ TRUSTED = ["os/glob listing reflects the files written (local file system)"]
 
 
 def nontrivial(h):
-    return h['B'] >= 2 and sum(1 for o in h['ops'] if o['op'] not in ('query', 'reload', 'new')) >= 3
+    return h['B'] >= 2 and sum(1 for o in h['ops'] if o['op'] not in ('query', 'stalequery', 'reload', 'new')) >= 3
 
 
 def gen_history(rng, B=None, ops_len=None):
@@ -41,7 +42,10 @@ def gen_history(rng, B=None, ops_len=None):
     sow = {'op': 'sow', 'cases': cases}
     if not cases: sow['shuffle'] = rng.choice([0, 0, 6])
     else: sow['spelling'] = 'tuple'
-    ops = [new, sow, {'op': 'query'}]
+    ops = [new]
+    if rng.random() < 0.25: ops.append({'op': 'query'})                     # progress asked before anything is sown
+    ops += [sow, {'op': 'query'}]
+    if rng.random() < 0.3: ops.append({'op': 'stalequery'})                 # ... and through a handle made before the sow
     L = ops_len or rng.randint(2, 10)
     locs = list(itertools.product(*(range(len(sw['values'][a])) for a in sweeps.fn_args(crops.sorted_sweep(sw)))))
     if sw['rows'] is not None: locs = [tuple(r) for r in sw['rows']]
@@ -61,7 +65,10 @@ def gen_history(rng, B=None, ops_len=None):
         elif r < 0.95: ops.append({'op': 'reload'})
         else: ops.append(dict(sow))           # re-sow, same shape
         ops.append({'op': 'query'})
+        if rng.random() < 0.1: ops.append({'op': 'stalequery'})
     ops += [{'op': 'growmissing'}, {'op': 'query'}]
+    if rng.random() < 0.3:
+        ops += [{'op': 'reap'}, {'op': 'query'}]                            # a complete reap removes the crop: nothing is ready any more
     return {'sweep': sw, 'kind': kind, 'ops': ops, 'B': B}
 
 
@@ -76,7 +83,8 @@ def cases(ctx):
             for seq in itertools.product(alphabet, repeat=L):
                 h = gen_history(rng, B=2, ops_len=0)
                 if h['B'] != 2: continue
-                h['ops'] = h['ops'][:3] + [x for o in seq for x in (dict(o), {'op': 'query'})]
+                base = [o for o in h['ops'] if o['op'] in ('new', 'sow')][:2] + [{'op': 'query'}]
+                h['ops'] = base + [x for o in seq for x in (dict(o), {'op': 'query'})]
                 out.append(h)
     for h in out:
         ctx.count('B', h['B']); ctx.count('len', len(h['ops']))
@@ -107,12 +115,14 @@ def oracle(h, obs):
     fin = set()
     batches = None
     corrupted = set()
+    sown = False
     for j, (op, ob) in enumerate(zip(h['ops'], o)):
         k = op['op']
         r = ob['o']
         if k == 'sow':
             if isinstance(r, dict) and 'err' in r: return f'op {j}: sow failed {r}'
             batches = ob.get('batches') or batches
+            sown = True
         elif k in ('grow', 'growmissing'):
             ids = op['ids'] if k == 'grow' else [i for i in range(1, B + 1) if i not in fin]
             fails = {tuple(x) for x in op.get('fail', [])}
@@ -131,13 +141,23 @@ def oracle(h, obs):
             if not isinstance(r, dict) or sorted(r.get('bad', [])) != sorted(corrupted):
                 return f'op {j}: check_bad reported {r}, corrupted results were {sorted(corrupted)}'
             fin -= corrupted; corrupted = set()
-        elif k == 'query':
+        elif k == 'reap':
+            if isinstance(r, dict) and 'err' in r: return f'op {j}: complete reap failed {r}'
+            sown = False; fin = set()
+            if ob['ls'] is not None: return f'op {j}: the crop directory is still there after a complete reap'
+            continue
+        elif k in ('query', 'stalequery') and not sown:
+            # nothing sown (yet, or any more): no batch exists, so nothing is finished and nothing can be ready
+            if r.get('ready') or r.get('sown', 0) > 0 or r.get('results', 0) > 0:
+                return f'op {j}: progress {json.dumps(r, default=str)} reported for a crop that is not sown'
+            continue
+        elif k in ('query', 'stalequery'):
             want = {'sown': B, 'results': len(fin), 'ready': len(fin) == B, 'missing': [i for i in range(1, B + 1) if i not in fin]}
             if r != want:
                 return f'op {j}: progress {json.dumps(r, default=str)} but on the history the truth is {json.dumps(want)}'
             if ob.get('str') and ob['str'] != [str(len(fin)), str(B)]:
                 return f'op {j}: str(crop) shows {ob["str"]} for {len(fin)} of {B} finished'
         if ob['ls'] is None or ob['ls']['r'] != sorted(fin) or ob['ls']['b'] != list(range(1, B + 1)):
-            if k != 'new':
+            if k != 'new' and sown:
                 return f'op {j} {op}: result files {ob["ls"]} but finished set is {sorted(fin)}'
     return None
